@@ -34,7 +34,8 @@ CONFIGS = {
                   ("c2g", "channel", "NoWakers", "S_c2", "M_cg"),
                   ("c1g2", "channel", "NoWakers", "S_c1", "M_cg2"),
                   ("c1far", "channel", "WB_far", "S_c1", "M_c1"),
-                  ("cctl", "channel", "WB_ctl", "S_ctl", "M_c1")],
+                  ("cctl", "channel", "WB_ctl", "S_ctl", "M_c1"),
+                  ("cext", "channel", "WB_ext", "S_ext", "M_c1")],
         "thorough": [("c3g", "channel", "NoWakers", "S_c3", "M_cg"),
                      ("c2", "channel", "NoWakers", "S_c2", "M_c1")],
     },
@@ -167,6 +168,10 @@ def rand_scripts(rng, kind):
             # the guard is dropped by another Waker's handler, inside poll_wake
             threads[rng.randrange(len(threads))].insert(rng.randrange(0, 2), ["wakectl"])
             return {"kind": "channel", "wakers": [], "threads": threads, "main": main, "ctl": True}
+        if rng.random() < 0.3:
+            # an unrelated plain Waker in the same leaf word as the channel's Waker
+            threads.append([["wake", 8] for _ in range(rng.randrange(1, 4))])
+            return {"kind": "channel", "wakers": [8], "threads": threads, "main": main}
         if rng.random() < 0.6:
             main.insert(rng.randrange(0, len(main) + 1), ["dropguard"])
         return {"kind": "channel", "wakers": [], "threads": threads, "main": main}
